@@ -424,3 +424,7 @@ mod tests {
         assert!(error.to_string().contains("operation would produce NaN"));
     }
 }
+
+#[cfg(kani)]
+#[path = "/verif/kani/arithmetic.rs"]
+mod kani_verif;
